@@ -38,7 +38,7 @@ class Rec:
     def brief(self):
         vals = []
         for k, v in self.f.items():
-            if k in ('snap', 'snap_all', 'hist'):
+            if k in ('snap', 'snap_all', 'hist', 'path'):
                 continue
             vals.append(f'{k}={v}')
         return f'{self.kind}(' + ','.join(vals) + ')'
@@ -62,11 +62,24 @@ class Inv:
         await asyncio.sleep(d)
 
     def dispatch(self, bus, ev):
-        self.ctx._explicit = self.id
+        ctx = self.ctx
+        if getattr(bus, '_vctx', None) is None:
+            # a plain EventBus (not the recording subclass): record the call here
+            lab = ctx.label(ev)
+            ctx.first_dispatch.setdefault(lab, self.id)
+            ctx.rec('D', bus=bus._vfw_name, ev=lab, caller=self.id)
+            try:
+                r = bus.dispatch(ev)
+            except BaseException as ex:
+                ctx.rec('DX', bus=bus._vfw_name, ev=lab, caller=self.id, exc=type(ex).__name__)
+                raise
+            ctx.rec('DR', bus=bus._vfw_name, ev=lab, caller=self.id, same=(r is ev))
+            return r
+        ctx._explicit = self.id
         try:
             return bus.dispatch(ev)
         finally:
-            self.ctx._explicit = None
+            ctx._explicit = None
 
     async def wait(self, ev):
         """`await ev` with await-begin / await-end records."""
@@ -299,7 +312,8 @@ class Ctx:
     def bus(self, name, cls=None, **kw):
         b = (cls or _HBUS)(name=name, **kw)
         b._vfw_name = name
-        b._vctx = self
+        if cls is None:
+            b._vctx = self
         self.buses[name] = b
         return b
 
